@@ -4,7 +4,7 @@
    is flagged, so it is reported invalid even on the last byte of a read. *)
 From Via Require Import M_Char M_Parse M_Receive P_Parse.
 From Via Require Import P_Frag P_FragC P_Term P_TermC.
-From Via Require Import M_Imp Gen_Parse P_Imp.
+From Via Require Import M_Imp M_Loop M_Hdr Gen_Parse P_Imp P_Loop P_Hdr.
 From Via Require Import M_Client P_Client.
 Local Open Scope N_scope.
 
@@ -150,3 +150,35 @@ Theorem C07_field_line_model_is_the_source : forall L f c,
 Proof. exact fl_parse_char_is_the_source. Qed.
 Print Assumptions C07_status_line_model_is_the_source.
 Print Assumptions C07_field_line_model_is_the_source.
+
+(* the loops around parse_char and clear(), translated and proved equal to the model for every state and every input
+   (see Properties_C01.v for what the statements say); the chunk-size line of a chunked response *)
+Theorem C07_status_line_loop_is_the_source : forall L r buf fuel, (length buf < fuel)%nat ->
+  lrun (sl_lim L) (sl_src L) fuel sl_parse_src (sl_store r) buf =
+  Some (let '(r', rest, p) := sl_parse L r buf in (is_done p, sl_store r', rest)).
+Proof. exact sl_parse_is_the_source. Qed.
+Theorem C07_field_line_loop_is_the_source : forall L f buf fuel, (length buf < fuel)%nat ->
+  lrun (fl_lim L) (fl_src L) fuel fl_parse_src (fl_store f) buf =
+  Some (let '(f', rest, p) := fl_parse L f buf in (is_done p, fl_store f', rest)).
+Proof. exact fl_parse_is_the_source. Qed.
+Theorem C07_chunk_line_model_is_the_source : forall L k c,
+  run_body (ck_lim L) c (ck_src L) (ck_store k) = (ck_store (fst (ck_parse_char L k c)), snd (ck_parse_char L k c)).
+Proof. exact ck_parse_char_is_the_source. Qed.
+Theorem C07_chunk_line_loop_is_the_source : forall L k buf fuel, (length buf < fuel)%nat ->
+  lrun (ck_lim L) (ck_src L) fuel ck_parse_src (ck_store k) buf =
+  Some (let '(k', rest, p) := ck_parse L k buf in (is_done p, ck_store k', rest)).
+Proof. exact ck_parse_is_the_source. Qed.
+Theorem C07_status_line_reset_is_the_source : forall lim c r,
+  exec lim c sl_clear_src (sl_store r) = (ONormal, sl_store sl_init).
+Proof. exact sl_clear_is_the_source. Qed.
+Print Assumptions C07_status_line_loop_is_the_source.
+Print Assumptions C07_field_line_loop_is_the_source.
+Print Assumptions C07_chunk_line_model_is_the_source.
+Print Assumptions C07_chunk_line_loop_is_the_source.
+Print Assumptions C07_status_line_reset_is_the_source.
+
+Theorem C07_header_block_is_the_source : forall L h buf fuel, hd_ok h -> (length buf + 2 <= fuel)%nat ->
+  hrun (fl_lim L) (hd_lim L) (fl_code_of L) fuel hd_parse_src (hd_store h) buf =
+  Some (let '(h', rest, p) := hd_parse L h buf in (is_done p, hd_store h', rest)).
+Proof. exact hd_parse_is_the_source. Qed.
+Print Assumptions C07_header_block_is_the_source.
